@@ -172,6 +172,16 @@ def handle_discipline(ct: Container, rep, rule="handle-discipline"):
         else:
             rep.fail(rule, mod, "Tdf.__exit__", ex.node, f"`{what[k]}` is not executed on every path of __exit__ (missing, conditional or after an early return)",
                      construct=f"Tdf.__exit__ :: {what[k]}")
+    # `with tdf as t:` hands out what __enter__ returns: the object itself, on every path (the normal form relies on it for `with self as v`)
+    from ..facts import path_returns as _pr
+    ent = ct.prog.need_method(tdf, "__enter__")
+    rets_ = [pe for pe in _pr(ent.node) if pe.kind == "return"]
+    if rets_ and all(isinstance(pe.value, ast.Name) and pe.value.id == (ent.self_name or "self") for pe in rets_):
+        rep.ok(rule, "Tdf.__enter__ returns the object itself on every path")
+    else:
+        badr = next((pe for pe in rets_ if not (isinstance(pe.value, ast.Name) and pe.value.id == (ent.self_name or "self"))), None)
+        rep.fail(rule, mod, "Tdf.__enter__", badr.node if badr is not None else ent.node, "__enter__ does not return the object itself on every path: `with Tdf(p) as t:` hands out something else than the opened file",
+                 construct="Tdf.__enter__ return value")
     # __exit__ tells `with` to swallow the exception leaving the block when it returns something truthy: a refusal raised inside
     # `with tdf:` would then never reach the caller.  Every return of __exit__ is bare / None / False.
     truthy_exit = False
